@@ -13,7 +13,9 @@ static QueueZipIter zit;  static int zit_a = -1, zit_b = -1;
 
 static int sparse;           /* obs=sparse on a constructor line: no content sweep except in `observe` */
 static bool sweep_now;
-static void shim_reset(void) { sparse = 0; for (int i = 0; i < NSLOT; i++) Q[i] = NULL; it_slot = zit_a = zit_b = -1; }
+static int quiet;            /* phys=quiet on a constructor line: buffer checksum instead of the dump, except in `observe` */
+static bool dump_now;
+static void shim_reset(void) { sparse = 0; quiet = 0; for (int i = 0; i < NSLOT; i++) Q[i] = NULL; it_slot = zit_a = zit_b = -1; }
 
 /* obs through the queue's public API only: a fresh queue iterator (front of the inner deque first,
  * i.e. newest element first), cc_queue_size, cc_queue_peek */
@@ -32,7 +34,7 @@ static void obs_all(void) {
 }
 static void phys_all(void) {
     size_t start = olen; bool any = false;
-    for (int k = 0; k < NSLOT; k++) if (Q[k]) { phys_deque("q", k, Q[k]->d); any = true; }
+    for (int k = 0; k < NSLOT; k++) if (Q[k]) { phys_deque("q", k, Q[k]->d, dump_now); any = true; }
     if (it_slot >= 0) { o(" it=%d:%zu:%d", it_slot, it.i.index, (int)it.i.last_removed); any = true; }
     if (zit_a >= 0) { o(" zit=%d:%d:%zu:%d", zit_a, zit_b, zit.i.index, (int)zit.i.last_removed); any = true; }
     if (!any) { o("-"); return; }
@@ -52,10 +54,11 @@ static void do_op(Cmd *c) {
     void *out = PTR(777777);
     enum cc_stat st;
     if (k < 0 || k >= NSLOT) { o("st=- badslot"); o_sep(); o("-"); return; }
-    sweep_now = !sparse;
-    if (is_op(c, "observe")) { sweep_now = true; o("st=-");
+    sweep_now = !sparse; dump_now = !quiet;
+    if (is_op(c, "observe")) { sweep_now = true; dump_now = true; o("st=-");
     } else if (is_op(c, "new")) {
         if (!strcmp(kv_str(c, "obs", ""), "sparse")) { sparse = 1; sweep_now = false; }
+        if (!strcmp(kv_str(c, "phys", ""), "quiet")) { quiet = 1; dump_now = false; }
         if (Q[k]) { o("st=- busy"); o_sep(); o("-"); return; }
         CC_QueueConf conf; cc_queue_conf_init(&conf);
         conf.capacity = kv_u64(c, "cap", conf.capacity);
@@ -66,6 +69,7 @@ static void do_op(Cmd *c) {
         o_stat(st);
     } else if (is_op(c, "new_default")) {
         if (!strcmp(kv_str(c, "obs", ""), "sparse")) { sparse = 1; sweep_now = false; }
+        if (!strcmp(kv_str(c, "phys", ""), "quiet")) { quiet = 1; dump_now = false; }
         if (Q[k]) { o("st=- busy"); o_sep(); o("-"); return; }
         CC_Queue *q = NULL; st = cc_queue_new(&q); Q[k] = st == CC_OK ? q : NULL; o_stat(st);
     } else if (is_op(c, "destroy")) {
